@@ -16,7 +16,157 @@ UNITS = [
 D = C + "detail::"
 
 
+# ---------------------------------------------------------------------------------------------
+# C14.10 (seeded change c14e): the linear interpolant is anchored at the lower knot - evaluated at
+# x = x_l it returns y_l bit for bit.  Decided by exact-zero propagation: a value is an exact
+# signed symbol, an exact zero, or "rounded" (any finite value).
+def knot_exact(db, cx):
+    from astutil import strip, show, OutOfVocabulary, const_int
+    ZERO, R = ("0",), ("R",)
+
+    def neg(a):
+        return ("x", a[1], -a[2]) if a[0] == "x" else a
+
+    def add(a, b):
+        if a == ZERO:
+            return b
+        if b == ZERO:
+            return a
+        if a[0] == "x" and b[0] == "x" and a[1] == b[1] and a[2] == -b[2]:
+            return ZERO          # x - x is exactly 0 in IEEE arithmetic
+        return R
+
+    def mul(a, b):
+        return ZERO if (a == ZERO or b == ZERO) else R      # 0 * finite = 0
+
+    def fma(a, b, c_):
+        return c_ if mul(a, b) == ZERO else R               # fma(a, 0, c) = c exactly
+
+    funcs = {}
+    for nm in db.find(r"^celeritas::detail::InterpolatorTraits::"):
+        for g in db.get(nm):
+            if "ast" in g.r and "Interp::linear" in g.inst:
+                funcs[nm] = g
+
+    def ev(n, env, members):
+        n = strip(n, also=("CXXStaticCastExpr", "CXXFunctionalCastExpr"))
+        k = n["k"]
+        if k in ("FloatingLiteral", "IntegerLiteral"):
+            return ZERO if float(n["val"]) == 0 else R
+        if k == "DeclRefExpr":
+            if n["name"] in env:
+                return env[n["name"]]
+            raise OutOfVocabulary("C14.10: unknown variable " + n["name"])
+        if k == "MemberExpr":
+            if n["name"] in members:
+                return members[n["name"]]
+            raise OutOfVocabulary("C14.10: member %s read before it is written" % n["name"])
+        if k == "CXXOperatorCallExpr" and n.get("oop") == "[]":
+            base, idx = strip(n["c"][1]), const_int(n["c"][2])
+            key = (show(base), idx)
+            if key in env:
+                return env[key]
+            raise OutOfVocabulary("C14.10: unknown element " + show(n))
+        if k == "UnaryOperator" and n["op"] == "-":
+            return neg(ev(n["c"][0], env, members))
+        if k == "BinaryOperator" and n["op"] in ("+", "-", "*", "/"):
+            a, b = ev(n["c"][0], env, members), ev(n["c"][1], env, members)
+            if n["op"] == "+":
+                return add(a, b)
+            if n["op"] == "-":
+                return add(a, neg(b))
+            if n["op"] == "*":
+                return mul(a, b)
+            return ZERO if a == ZERO else R
+        if k == "CallExpr":
+            cal = n.get("callee", "")
+            args = [ev(a, env, members) for a in n["c"][1:]]
+            if cal in ("fma", "std::fma") and len(args) == 3:
+                return fma(*args)
+            if cal in funcs:
+                g = funcs[cal]
+                rets = [x for x in _walk(g.r["ast"]) if x["k"] == "ReturnStmt"]
+                if len(rets) != 1:
+                    raise OutOfVocabulary("C14.10: %s is not a single return" % cal)
+                sub = dict(zip([p_["n"] for p_ in g.r["params"]], args))
+                return ev(rets[0]["c"][0], sub, members)
+            if cal.startswith("std::") or cal in ("log", "log2", "exp", "exp2", "isnan", "std::isnan"):
+                return R
+            raise OutOfVocabulary("C14.10: call to %s outside the vocabulary" % cal)
+        raise OutOfVocabulary("C14.10: expression outside the vocabulary: %s (%s)" % (show(n), k))
+
+    def _walk(n):
+        if n is None:
+            return
+        yield n
+        for c_ in n["c"]:
+            yield from _walk(c_)
+
+    def run_body(ast, env, members, want_return):
+        ret = [None]
+
+        def st(n):
+            if n is None or ret[0] is not None:
+                return
+            k = n["k"]
+            if k == "CompoundStmt":
+                for c_ in n["c"]:
+                    st(c_)
+            elif k in ("DoStmt", "NullStmt"):
+                return                      # compiled-out assertion macros
+            elif k == "DeclStmt":
+                for d in n["c"]:
+                    if d["k"] == "VarDecl" and d["c"] and d["c"][0] is not None:
+                        env[d["name"]] = ev(d["c"][0], env, members)
+            elif k in ("ExprWithCleanups",):
+                st(n["c"][0])
+            elif k == "BinaryOperator" and n["op"] == "=":
+                lhs = strip(n["c"][0])
+                v = ev(n["c"][1], env, members)
+                if lhs["k"] == "MemberExpr":
+                    members[lhs["name"]] = v
+                elif lhs["k"] == "DeclRefExpr":
+                    env[lhs["name"]] = v
+                else:
+                    raise OutOfVocabulary("C14.10: assignment to " + show(lhs))
+            elif k == "ReturnStmt":
+                ret[0] = ev(n["c"][0], env, members) if n["c"] else R
+            else:
+                raise OutOfVocabulary("C14.10: statement outside the vocabulary: " + k)
+        st(ast)
+        return ret[0]
+
+    ctors = [f for f in db.get(C + "Interpolator::Interpolator")
+             if "Interp::linear, celeritas::Interp::linear" in f.inst and "ast" in f.r
+             and len(f.r["params"]) == 2]
+    calls = [f for f in db.get(C + "Interpolator::operator()")
+             if "Interp::linear, celeritas::Interp::linear" in f.inst and "ast" in f.r]
+    cx.require(ctors and calls, "anchor Interpolator<linear, linear> (constructor / operator()) not found")
+    for fc in ctors:
+        pl, pr = [p_["n"] for p_ in fc.r["params"]]
+        env = {(pl, 0): ("x", "x_l", 1), (pl, 1): ("x", "y_l", 1), (pr, 0): ("x", "x_r", 1), (pr, 1): ("x", "y_r", 1)}
+        members = {}
+        for ini in fc.r.get("inits", []) or []:
+            raise OutOfVocabulary("C14.10: member initialisers in the Interpolator constructor")
+        run_body(fc.r["ast"], env, members, False)
+        for fo in calls:
+            px = fo.r["params"][0]["n"]
+            got = run_body(fo.r["ast"], {px: ("x", "x_l", 1)}, dict(members), True)
+            ok = got == ("x", "y_l", 1)
+            cx.ob("C14.10-knot-exact", "linear interpolation evaluated at the lower knot returns y_l exactly",
+                  ok, "value at x = x_l: %s; members: %s" % (
+                      "y_l" if ok else ("a rounded combination" if got == R else str(got)),
+                      ", ".join("%s = %s" % (k_, "exact " + ("-" if v[2] < 0 else "") + v[1] if v[0] == "x"
+                                             else "0" if v == ZERO else "rounded") for k_, v in sorted(members.items()))),
+                  short(fo.loc),
+                  why="XsCalculator / RangeCalculator / InverseRangeCalculator / GenericCalculator look a knot "
+                      "energy up in the bin that starts there; an interpolant that is not anchored at x_l "
+                      "(e.g. slope * x + intercept) cancels two large terms: steep tables are not reproduced "
+                      "at their knots and a table that is zero at a knot yields negative values")
+
+
 def run(db, cx):
+    knot_exact(db, cx)
     # 1 ---------------------------------------------------------------- from geo
     fs = db.get(D + "MscStepFromGeo::operator()")
     cx.require(fs, "anchor MscStepFromGeo::operator() not found")
